@@ -305,6 +305,48 @@ def is_mapping_get(call: ast.Call, names: set) -> bool:
             and isinstance(call.args[0], ast.Constant) and all(isinstance(a, (ast.Constant, ast.Name)) for a in call.args[1:]))
 
 
+def list_names(fn: ast.AST) -> set:
+    """Locals bound only to list displays / list(...) / comprehensions in `fn` (a work list, an accumulator)."""
+    binds: dict = {}
+    for n in ast.walk(fn):
+        if isinstance(n, ast.Assign):
+            for t in n.targets:
+                for x in ast.walk(t):
+                    if isinstance(x, ast.Name):
+                        binds.setdefault(x.id, []).append(n.value if x is t else None)
+        elif isinstance(n, ast.AnnAssign) and isinstance(n.target, ast.Name):
+            binds.setdefault(n.target.id, []).append(n.value)
+        elif isinstance(n, ast.AugAssign) and isinstance(n.target, ast.Name):
+            binds.setdefault(n.target.id, []).append(None)
+        elif isinstance(n, (ast.For, ast.AsyncFor, ast.With, ast.AsyncWith, ast.ExceptHandler, ast.comprehension)):
+            for x in ast.walk(getattr(n, "target", None) or ast.Pass()):
+                if isinstance(x, ast.Name):
+                    binds.setdefault(x.id, []).append(None)
+    args = getattr(fn, "args", None)
+    params = {a.arg for a in (args.posonlyargs + args.args + args.kwonlyargs)} if args is not None else set()
+    return {k for k, vs in binds.items() if k not in params and vs and all(isinstance(v, (ast.List, ast.ListComp)) or (isinstance(v, ast.Call) and isinstance(v.func, ast.Name) and v.func.id == "list") for v in vs)}
+
+
+def is_list_total(call: ast.Call, names: set, truthy=()) -> bool:
+    """Operations on a local list that cannot raise: growing it, `reversed`/`len` of it, and `pop()` where the path has
+    just tested the list to be non-empty (`while work:` / `if work:`; `truthy` = names known non-empty here)."""
+    f = call.func
+    if isinstance(f, ast.Attribute) and isinstance(f.value, ast.Name) and f.value.id in names and not call.keywords:
+        if f.attr in ("append", "extend", "clear", "reverse", "copy") and all(not isinstance(a, ast.Await) for a in call.args):
+            return all(isinstance(a, (ast.Name, ast.Constant, ast.List, ast.Tuple)) or (isinstance(a, ast.Call) and ast.unparse(a.func) in ("reversed", "list", "tuple") and all(isinstance(x, ast.Name) for x in a.args)) for a in call.args)
+        if f.attr == "pop" and len(call.args) <= 1 and all(isinstance(a, ast.Constant) and a.value in (0, -1) for a in call.args):
+            return f.value.id in truthy
+    return False
+
+
+def is_sequence_op(call: ast.Call, st) -> bool:
+    """`reversed(x)` / `iter(x)` / `list(x)` / `tuple(x)` of a value the path knows to be a list or tuple."""
+    if isinstance(call.func, ast.Name) and call.func.id in ("reversed", "iter", "list", "tuple", "enumerate") and len(call.args) == 1 and not call.keywords and isinstance(call.args[0], ast.Name):
+        t = st.term(call.args[0].id) or call.args[0].id
+        return any(l.startswith(f"isinstance({t}, ") and not l.startswith("not ") and ("list" in l or "tuple" in l) for l in st.lits)
+    return False
+
+
 CLOCK_FUNCS = {"time.monotonic", "time.time", "time.perf_counter", "time.monotonic_ns", "time.time_ns", "time.perf_counter_ns", "anyio.current_time", "monotonic", "perf_counter"}
 
 
@@ -324,6 +366,14 @@ def is_benign_call(call: ast.Call, handler_vars=()) -> bool:
         return True
     if name in PURE_FUNCS:
         return True
+    if name in ("any", "all") and len(call.args) == 1 and not call.keywords and isinstance(call.args[0], (ast.GeneratorExp, ast.ListComp)):
+        # a membership scan: `any(marker in text for marker in MARKERS)` over a named constant / display, element a
+        # comparison of plain references — nothing in it can raise for str/tuple operands
+        g = call.args[0]
+        if len(g.generators) == 1 and not g.generators[0].ifs and isinstance(g.generators[0].iter, (ast.Name, ast.Attribute, ast.Tuple, ast.List, ast.Set)) \
+                and isinstance(g.elt, ast.Compare) and all(isinstance(o, (ast.In, ast.NotIn, ast.Eq, ast.NotEq)) for o in g.elt.ops) \
+                and all(isinstance(x, (ast.Name, ast.Constant)) for x in [g.elt.left] + g.elt.comparators):
+            return True
     if name in CLOCK_FUNCS and not call.args and not call.keywords:
         return True  # reading a clock does not raise
     if name == "getattr" and len(call.args) == 3:
